@@ -5,7 +5,7 @@ from .. import core
 ID = "C18"
 RULE = ("histories of Set/Get/Delete/KeysWithSuffix/Reopen over 1-4 keys (keys with ':' included, so that "
         "the sanitiser matters), values 0..4096 bytes, a third of all Sets overwrite a live key with a strictly "
-        "shorter value; database histories of Save/Load/Remove/List/Reopen with entity names of arbitrary bytes "
+        "shorter value, Sets of the very value a key held before it was deleted or overwritten; database histories of Save/Load/Remove/List/Reopen with entity names of arbitrary bytes "
         "(valid UTF-8, invalid UTF-8, up to 100 bytes). non-trivial = contains an overwrite of a live key or a "
         "delete of a live key followed by a read")
 EXTRA_FILES = ("Proofs/StorageProofs.v",)
@@ -36,22 +36,29 @@ def gen_storage(rng, n, maxops, big):
         if rng.random() < 0.3:
             keys.append(keys[0].replace(b":", b"") + b":")   # same file after sanitising
         live = {}
+        gone = {}
         ops = []
         for _ in range(rng.randrange(2, maxops)):
             r = rng.random()
             k = rng.choice(keys)
             f = k.replace(b":", b"")
             if r < 0.45:
-                if f in live and len(live[f]) > 0 and rng.random() < 0.6:
+                if f in gone and rng.random() < 0.5:
+                    v = gone[f]          # the very value the key held before it was deleted (or before another Set)
+                elif f in live and len(live[f]) > 0 and rng.random() < 0.6:
                     v = rbytes(rng, rng.randrange(0, len(live[f])))
                 else:
                     L = rng.choice([0, 1, 2, 31, 32, 33, 64, 100]) if rng.random() < 0.7 else rng.randrange(0, big)
                     v = rbytes(rng, L)
+                if f in live:
+                    gone[f] = live[f]
                 live[f] = v
                 ops.append("S:%s:%s" % (k.hex(), v.hex()))
             elif r < 0.7:
                 ops.append("G:%s" % k.hex())
             elif r < 0.8:
+                if f in live:
+                    gone[f] = live[f]
                 live.pop(f, None)
                 ops.append("D:%s" % k.hex())
             elif r < 0.9:
@@ -81,12 +88,17 @@ def gen_db(rng, n):
     cases = []
     for ci in range(n):
         names = [gen_name(rng) for _ in range(rng.randrange(1, 4))]
+        last = {}
         ops = []
         for _ in range(rng.randrange(2, 14)):
             r = rng.random()
             nm = rng.choice(names)
             if r < 0.4:
-                ops.append("SV:%s:%s:%s" % (nm.hex(), rbytes(rng, rng.choice([0, 32])).hex(), rbytes(rng, rng.choice([0, 0, 64])).hex()))
+                if nm in last and rng.random() < 0.4:
+                    ops.append(last[nm])          # the very same entity again (a controller paired again with the same key)
+                else:
+                    ops.append("SV:%s:%s:%s" % (nm.hex(), rbytes(rng, rng.choice([0, 32])).hex(), rbytes(rng, rng.choice([0, 0, 64])).hex()))
+                    last[nm] = ops[-1]
             elif r < 0.65:
                 ops.append("LD:%s" % nm.hex())
             elif r < 0.8:
